@@ -26,6 +26,22 @@ prop('C08', 'complete enumeration of (cell, order, monomial) against exact ratio
      'trusts Python Fractions and numpy float arithmetic; Gauss-Legendre cells are probed up to a stated maximum order',
      'DESIGN.md section 6 C08')
 
+prop('C11', 'Hypothesis mesh strategies vs brute-force set recomputation of every connectivity table',
+     'Generated meshes of all ten classes (Delaunay, tensor, simplex-split quads/hexes, extruded prisms, holes, '
+     'arbitrary vertex/cell/local numbering); every derived table (facets, edges, t2f, t2e, f2t, f2e, boundary/interior '
+     'sets, incidence matrices) is compared with a quadratic-time recomputation from the cell list with Python sets, '
+     'and derived predicates are compared across a renumbering. Exploration: a measured sample, no absence claim.',
+     'trusts the reference-cell conventions in skfem.refdom and the generators\' conformity by construction',
+     'DESIGN.md section 6 C11')
+
+prop('C04', 'Hypothesis meshes x elements (real and synthetic count-only) vs DOF sharing recomputed from the cell list',
+     'Generated mesh x element pairs (all registered elements, Vector/DG/Composite wrappers, synthetic elements with '
+     'arbitrary DOF counts): gap-freeness, sharing-iff through entity->cells recomputed with sets, table partition and '
+     'coherence, DOF locations on their entities (single-valued for nodal elements), shape and sparsity locality of '
+     'assembled matrices on cell, subset and boundary bases with trial != test.',
+     'trusts numpy/scipy and the facet/edge tables judged by C11; curved cells are excluded from the DOF-location part',
+     'DESIGN.md section 6 C04')
+
 NOT_YET = 'check under construction in this round; not claimed until it is registered (see DESIGN.md section 9)'
 
 
